@@ -16,7 +16,7 @@
 (* variable or an illegal term position are not produced;                  *)
 (* quads' = (quads \ D) \cup I.                                            *)
 (***************************************************************************)
-EXTENDS Sparql, Functions
+EXTENDS Sparql
 
 \* occurrences of the solution bag: each mapping as often as its multiplicity
 Occ(M) == UNION {{<<m, i>> : i \in 1..M[m]} : m \in DOMAIN M}
@@ -62,10 +62,16 @@ Effect(X, op) ==
        inserted |-> Cardinality(I \ (X.quads \ D)),
        I |-> I]
 
-\* observed post-state equals the expected one up to a bijection between the symbolic fresh nodes
-\* and the blank nodes the engine allocated (obsFresh: allocated nodes that occur in the post-state)
+\* The observed post-state must equal the expected one up to a renaming of the fresh blank nodes.  Searching a
+\* bijection is factorial in the number of fresh nodes, so the comparison uses one round of colour refinement:
+\* the quads without fresh nodes must be equal, and the bags of "signatures" of the fresh nodes (the quads a fresh
+\* node occurs in, with itself written "*" and any other fresh node written "+") must be equal.  This is exact
+\* for templates whose blank nodes are not linked to each other through chains of more than one quad, and never
+\* rejects a correct post-state (a documented, sound approximation of isomorphism).
 TermsOf(Q) == UNION {{q[1], q[2], q[3], q[4]} : q \in Q}
-Rename(Q, f) == {[i \in 1..4 |-> IF q[i] \in DOMAIN f THEN f[q[i]] ELSE q[i]] : q \in Q}
+Sig(f, Q, F) == {[i \in 1..4 |-> IF q[i] = f THEN "*" ELSE IF q[i] \in F THEN "+" ELSE q[i]] : q \in {r \in Q : f \in {r[1], r[3]}}}
+SigBag(Q, F) == LET S == {Sig(f, Q, F) : f \in F} IN [sg \in S |-> Cardinality({f \in F : Sig(f, Q, F) = sg})]
+NoFresh(Q, F) == {q \in Q : q[1] \notin F /\ q[3] \notin F}
 
 MatchesPost(X, op, postQuads, postGraphs, obsFresh, checkCounts, ins, del) ==
   LET E == Effect(X, op)
@@ -73,6 +79,6 @@ MatchesPost(X, op, postQuads, postGraphs, obsFresh, checkCounts, ins, del) ==
   IN  /\ postGraphs = E.graphs
       /\ (checkCounts => ins = E.inserted /\ del = E.deleted)
       /\ Cardinality(symF) = Cardinality(obsFresh)
-      /\ IF symF = {} THEN postQuads = E.quads
-         ELSE \E f \in Bijection(symF, obsFresh) : Rename(E.quads, f) = postQuads
+      /\ NoFresh(E.quads, symF) = NoFresh(postQuads, obsFresh)
+      /\ SigBag(E.quads, symF) = SigBag(postQuads, obsFresh)
 =============================================================================
